@@ -79,7 +79,11 @@ void f_div_eq () {
       {
         if (!sp->u.number)
           error ("Division by 0nn\n");
-        sp->u.number = (argp->u.number /= sp->u.number);
+        if (sp->u.number == -1)	/* INT64_MIN / -1 traps in hardware; negate with wrap-around */
+          argp->u.number = (int64_t) (0 - (uint64_t) argp->u.number);
+        else
+          argp->u.number /= sp->u.number;
+        sp->u.number = argp->u.number;
         sp->subtype = 0;
         break;
       }
@@ -426,7 +430,11 @@ void f_mod_eq () {
     error ("Bad right type to %=\n");
   if (sp->u.number == 0)
     error ("Modulo by 0\n");
-  sp->u.number = argp->u.number %= sp->u.number;
+  if (sp->u.number == -1)	/* INT64_MIN % -1 traps in hardware; the remainder is always 0 */
+    argp->u.number = 0;
+  else
+    argp->u.number %= sp->u.number;
+  sp->u.number = argp->u.number;
   sp->subtype = 0;
 }
 
